@@ -16,6 +16,10 @@ RULES = {
                    'weight of lag 0 - also while the window is still filling',
     'FDIFF.nonnull': 'on a path where the window may contain nulls the weights are zipped with '
                      'the non-null elements only (the k-th most recent valid element gets lag k)',
+    'FDIFF.gate': 'the null-aware form yields a value only on paths where the window holds at least the '
+                  'effective min_periods (the request clamped to the window) valid elements: proved from the '
+                  'path\'s own tests over the valid count (linear arithmetic), so a full-length window with too '
+                  'few valid elements is null',
     'FDIFF.fold': 'the fold adds value * weight (skipping a null value in the null-aware form)',
 }
 
@@ -33,6 +37,8 @@ def _term(x):
         return L('LEN')
     if re.fullmatch(r'\d+', x):
         return L(int(x))
+    if re.fullmatch(r'min\(min_periods\.unwrap_or\(.+\), window\)|min\(window, min_periods\.unwrap_or\(.+\)\)', x):
+        return L('MP')   # the effective min_periods: the request (or its default) clamped to the window
     m = re.fullmatch(r'\((.+) - (.+)\)', x)
     if m:
         a, b = _term(m.group(1)), _term(m.group(2))
@@ -136,6 +142,11 @@ def check(run, F):
                        'not equal for every window fill (slice length LEN <= window; N valid of them): the '
                        'most recent element does not meet lag 0 -- values `%s`, weights `%s`' % (X, W)))
             if valid_form:
+                # MP <= window holds because the effective min_periods is `min(.., window)`; a path that never
+                # mentions it relies on exactly that clamp
+                gate = lia.entails_ge0(fs + [sub(L('window'), L('MP'))], sub(L('N'), L('MP')))
+                run.ob('FDIFF.gate', fn, key, gate, fn.loc(),
+                       'valid count >= effective min_periods on this path: %s' % gate)
                 all_valid = lia.entails_ge0(fs, sub(L('N'), L('LEN')))
                 okn = X == 'a0.titer().filter(IsNone::not_none)' or all_valid
                 run.ob('FDIFF.nonnull', fn, key, okn, fn.loc(),
